@@ -656,13 +656,43 @@ Definition own4_emptyresp (share : bool) : list instr :=
 Definition Pown4_emptyresp (share : bool) : proto :=
   mkProto [own4_emptyresp share] [0;0;0;0;0] [true;true;true;true;true] [] [].
 
+(* (10) prefetch: router.go handleReqMsg / handleReq / asyncSingleFlightPrefetch / doPrefetch.  Threads: 0 the request
+   handler (cache hit in the last quarter of the entry's life), 1 the prefetch goroutine (it outlives the handler).
+   Objects: 0 q (the handler's private copy of the question, released by its deferred ReleaseQuestion), 1 qCopy (the
+   goroutine's own copy), 2 resp (the cached response).  Flag 0: goroutine started.
+   [lazy = false] the code as it is: qCopy := q.Copy() BEFORE the go statement; the goroutine owns qCopy.
+   [lazy = true]  variant: the copy is made inside the goroutine ("off the hot path"): q is only lent. *)
+Definition own4_pf_h (lazy : bool) : list instr :=
+  [ IAcq 0; IWr 0;                          (* 0,1: q := m.Questions[0].Copy(); defer ReleaseQuestion(q) *)
+    IRd 0;                                  (* 2: rules, cache lookup: hit, needPrefetch *)
+    IRd 0;                                  (* 3: keyForPrefetch(q, ..); reserve *)
+    (if lazy then IGoto 7 else IAcq 1);     (* 4: qCopy := q.Copy() *)
+    IRd 0; IWr 1;                           (* 5,6 *)
+    (if lazy then ILend 0 1 else IGive 1 1);(* 7: go func(){ .. } *)
+    ISet 0 1;                               (* 8 *)
+    IAcq 2; IWr 2;                          (* 9,10: rc.Response.Msg = resp (unpacked from the cache) *)
+    IRel 0;                                 (* 11: deferred ReleaseQuestion(q) *)
+    IRd 2; IRel 2;                          (* 12,13: pack and write the response; releaseRequestContext *)
+    IHalt ].
+Definition own4_pf_g (lazy : bool) : list instr :=
+  [ IWait 0;
+    (if lazy then IRd 0 else IGoto 4);      (* 1: [variant: qCopy := q.Copy() here] *)
+    (if lazy then IAcq 1 else IGoto 4);     (* 2 *)
+    (if lazy then IWr 1 else IGoto 4);      (* 3 *)
+    IRd 1;                                  (* 4: doPrefetch(qCopy, ..): packReq, forward, cache.Store *)
+    IRel 1;                                 (* 5: dnsmsg.ReleaseQuestion(qCopy) *)
+    IHalt ].
+Definition Pown4_prefetch (lazy : bool) : proto :=
+  mkProto [own4_pf_h lazy; own4_pf_g lazy] [0;0;0] [true;true;true] [] [0].
+
 (* named protocols of round 4 (even = the code as it is, odd/other = the variants) *)
 Definition own4_proto (n : nat) : proto :=
   match n with
   | 0 => Pown4_sread false | 1 => Pown4_sread true
   | 2 => Pown4_fallback 0 | 3 => Pown4_fallback 1 | 4 => Pown4_fallback 2
   | 5 => Pown4_reuse_reply false | 6 => Pown4_reuse_reply true
-  | 7 => Pown4_emptyresp false | _ => Pown4_emptyresp true
+  | 7 => Pown4_emptyresp false | 8 => Pown4_emptyresp true
+  | 9 => Pown4_prefetch false | _ => Pown4_prefetch true
   end.
 
 Definition own4_t0 (ks : list nat) : list pick := map (T 0) ks.
@@ -674,7 +704,9 @@ Definition own4_t0 (ks : list nat) : list pick := map (T 0) ks.
              4 = 2 with another request taking the released reply
    reply:    0 reply received, used, released, no cancellation; 1 reply received, THEN the context ends, then the worker's
              epilogue, then the caller uses and releases the reply; 2 the context ends first (caller gone), late reply
-   empty:    0 the whole handler; 1 the same with another request taking each object as soon as it is released *)
+   empty:    0 the whole handler; 1 the same with another request taking each object as soon as it is released
+   prefetch: 0 the goroutine runs as soon as it is started; 1 the handler returns (and releases its question) first;
+             2 = 1 with another request taking the released question before the goroutine runs *)
 Definition own4_sched (p k : nat) : list pick :=
   match p, k with
   | 0, 0 | 1, 0 => own4_t0 (repeat 0 14)
@@ -698,6 +730,12 @@ Definition own4_sched (p k : nat) : list pick :=
   | 7, 0 | 8, 0 => own4_t0 (repeat 0 (if p =? 7 then 23 else 21))
   | 7, 1 => own4_t0 (repeat 0 19) ++ [E 4] ++ own4_t0 [0] ++ [E 3] ++ own4_t0 [0] ++ [E 2] ++ own4_t0 [0] ++ [E 1] ++ own4_t0 [0]
   | 8, 1 => own4_t0 (repeat 0 17) ++ [E 4] ++ own4_t0 [0] ++ [E 1] ++ own4_t0 [0] ++ [E 2] ++ own4_t0 [0; 0]
+  | 9, 0 => rep (T 0 0) 9 ++ rep (T 1 0) 4 ++ rep (T 0 0) 5
+  | 10, 0 => rep (T 0 0) 7 ++ rep (T 1 0) 6 ++ rep (T 0 0) 5
+  | 9, 1 => rep (T 0 0) 14 ++ rep (T 1 0) 4
+  | 10, 1 => rep (T 0 0) 12 ++ rep (T 1 0) 6
+  | 9, 2 => rep (T 0 0) 14 ++ [E 0] ++ rep (T 1 0) 4
+  | 10, 2 => rep (T 0 0) 12 ++ [E 0] ++ rep (T 1 0) 6
   | _, _ => [T 9 0]
   end.
 
